@@ -37,8 +37,8 @@ RS = RuleSet(
         'replace_current_process / fall_back_on_sh (and delegating impls) with the environment computed by '
         'env_c_strings, whose closure builds a string only for the top variable of a name with is_exported set.'),
     not_decided='lookup results over all histories (equivalence with a stack of maps), e.g. the volatile-to-regular '
-                'migration and hidden variables; that built-ins (typeset, export, readonly, unset) choose the documented '
-                'scope; quirks; VariableRefMut has no DerefMut as a compile-fail witness (elsewhere)',
+                'migration and hidden variables; that export and readonly choose the documented scope (typeset and unset are '
+                'decided: R18, R19); quirks; VariableRefMut has no DerefMut as a compile-fail witness (elsewhere)',
     trusted=['std Vec/HashMap/Option method semantics (push/pop/drain/retain/get_or_insert/replace)'],
     assumptions=['unsafe code is not modelled (none in yash-env::variable)', 'unwinding paths are not considered',
                  'a place is "through a reference" when it contains a dereference before the field projection'],
